@@ -30,6 +30,10 @@ def run(ctx):
         plan = [('c18_mbox', 2, 2, 2), ('c18_noop', 2, 2, 2), ('c18_mbox', 3, 1, 1), ('c18_noop', 3, 1, 1), ('c18_mbox_deflock', 2, 2, 1), ('c18_noop_etls', 2, 2, 2)]
     for b, th, bound, ln in plan:
         ctx.run(bins[b], ['--threads', th, '--bound', bound, '--len', ln])
+    # all sandboxes created before the threads start: use / destroy / re-create race from the first step on
+    pre = [('c18_mbox', 3, 2, 1), ('c18_noop', 3, 2, 1), ('c18_mbox', 2, 3, 2)] if ctx.thorough else [('c18_mbox', 3, 1, 1), ('c18_noop', 3, 1, 1)]
+    for b, th, bound, ln in pre:
+        ctx.run(bins[b], ['--threads', th, '--bound', bound, '--len', ln, '--pre', 1])
     if ctx.thorough:
         import subprocess, os
         env = dict(os.environ, TSAN_OPTIONS='halt_on_error=0:report_signal_unsafe=0')
